@@ -136,7 +136,137 @@ func matcherAlphabet(u string, full bool) []M {
 	}
 	out = append(out, M{0, "e", "1"}, M{1, "e", "1"})
 	if full {
-		out = append(out, M{2, "e", "1|2"})
+		out = append(out, M{2, "e", "1|2"}, M{2, "e", "2|1"})
+		for _, nv := range universeNamesVals(u) {
+			out = append(out, orderSymbols(u, nv, false)...)
+		}
+	}
+	return out
+}
+
+// ---------- set matchers as written + several matchers on one label name ----------
+//
+// A set matcher is an ordered list of alternatives in the request (`l=~"c|a"`), the posting groups built from
+// it are merged pairwise with the groups of the other matchers on the same label name (mergeKeys: two-pointer
+// walks over add keys / remove keys) and looked up in the index-header in one pass (PostingsOffsets). The
+// symbols below write the alternatives in an order that is NOT lexicographic (lo < mid < hi), with a repeated
+// alternative, through the regexp parser instead of the literal fast path, and with >= 16 alternatives
+// (Prometheus then keeps them in a map: SetMatches comes back in random order).
+func orderAlphabet(n, lo, mid, hi string, full bool) []M {
+	out := []M{
+		{3, n, hi + "|" + lo},              // l!~"c|a": remove keys written out of order, leaves mid
+		{2, n, hi + "|" + lo},              // l=~"c|a": add keys written out of order
+		{2, n, mid + "|" + lo + "|" + hi},  // l=~"b|a|c"
+		{3, n, mid + "|" + lo},             // l!~"b|a": leaves hi
+		{2, n, mid + "|" + lo + "|" + mid}, // l=~"b|a|b": an alternative written twice
+	}
+	if full {
+		out = append(out,
+			M{3, n, mid + "|" + lo + "|" + hi},  // l!~"b|a|c"
+			M{2, n, "(" + hi + "|" + lo + ")"},  // same set through the regexp parser (group)
+			M{3, n, mid + "|" + lo + "|" + mid}, // negated, an alternative written twice
+		)
+	}
+	return out
+}
+
+// bigSet: 17 existing values of label n of u2 in descending order (>= 16 alternatives: map-backed set matcher).
+func bigSet() string {
+	var vs []string
+	for i := 38; i >= 6; i -= 2 {
+		vs = append(vs, fmt.Sprintf("v%02d", i))
+	}
+	return strings.Join(vs, "|")
+}
+
+type nameVals struct{ n, v1, v2, miss, lo, mid, hi string }
+
+func universeNamesVals(u string) []nameVals {
+	switch u {
+	case "u2":
+		return []nameVals{{"n", "v05", "v33", "v99", "v05", "v20", "v33"}, {"a", "x", "y", "m", "x", "y", "z"}}
+	case "u1": // label a has the values w, x, y there (w only in the second block)
+		return []nameVals{{"a", "x", "y", "m", "w", "x", "y"}, {"b", "p", "q", "m", "p", "q", "s"}}
+	}
+	// u0: a in {x,y,z}; b in {p,q} (s is absent: a set that mentions a value the block does not have)
+	return []nameVals{{"a", "x", "y", "m", "x", "y", "z"}, {"b", "p", "q", "m", "p", "q", "s"}}
+}
+
+func orderSymbols(u string, nv nameVals, full bool) []M {
+	out := orderAlphabet(nv.n, nv.lo, nv.mid, nv.hi, full)
+	if u == "u2" && nv.n == "n" {
+		out = append(out, M{2, "n", bigSet()}, M{3, "n", bigSet()})
+		if full {
+			out = append(out, M{2, "n", "v(33|05|20)"}) // set found by the regexp parser under a common prefix
+		}
+	}
+	return out
+}
+
+// sameNameSets: the requests of the "samename" part.
+//   - every order symbol alone
+//   - every pair {order symbol, any other symbol on the SAME label name} (mergeKeys on a group with unsorted input)
+//   - pairs {order symbol, partner on the OTHER label name} (two groups: lazy posting selection looks the keys of
+//     both up in the index-header in one pass) and {order symbol, order symbol} across names
+//   - every set of THREE matchers on one label name over a 7-symbol alphabet (the result of one mergeKeys is merged
+//     again; the store walks the matchers of one name in map order, so all merge orders occur)
+func sameNameSets(u string, full bool) [][]M {
+	var out [][]M
+	nvs := universeNamesVals(u)
+	ord := make([][]M, len(nvs))
+	for i, nv := range nvs {
+		ord[i] = orderSymbols(u, nv, full)
+	}
+	for i, nv := range nvs {
+		for _, o := range ord[i] {
+			out = append(out, []M{o})
+		}
+		base := nameAlphabet(nv.n, nv.v1, nv.v2, nv.miss, full)
+		for k, o := range ord[i] {
+			for _, b := range base {
+				out = append(out, []M{o, b})
+			}
+			for _, o2 := range ord[i][k+1:] {
+				out = append(out, []M{o, o2})
+			}
+		}
+	}
+	for i := range nvs {
+		for j := range nvs {
+			if i == j {
+				continue
+			}
+			nv := nvs[j]
+			partners := []M{{0, nv.n, nv.v1}, {1, nv.n, ""}, {1, nv.n, nv.v1}}
+			for _, o := range ord[i] {
+				for _, p := range partners {
+					out = append(out, []M{o, p})
+				}
+				if i < j {
+					for _, o2 := range ord[j] {
+						out = append(out, []M{o, o2})
+					}
+				}
+			}
+		}
+	}
+	for _, nv := range nvs {
+		t := []M{
+			{1, nv.n, nv.lo},                              // add all, remove lo
+			{1, nv.n, nv.hi},                              // add all, remove hi
+			{3, nv.n, nv.mid + "|" + nv.lo},               // add all, remove {mid, lo}
+			{2, nv.n, ".+"},                               // add every value
+			{2, nv.n, nv.mid + "|" + nv.hi + "|" + nv.lo}, // add keys, written out of order
+			{1, nv.n, ""},                                 // add every value
+			{0, nv.n, nv.mid},                             // one add key
+		}
+		for a := 0; a < len(t); a++ {
+			for b := a + 1; b < len(t); b++ {
+				for c := b + 1; c < len(t); c++ {
+					out = append(out, []M{t[a], t[b], t[c]})
+				}
+			}
+		}
 	}
 	return out
 }
@@ -264,6 +394,27 @@ func postingsConfigs(ncache int) []Config { // sampling x lazy x est x cache
 	return out
 }
 
+// sameNameConfigs: quick = sampling x lazy x estimates{index stats, 16 bytes} with the in-memory cache (cold, then
+// warm; the cold call takes every path of a store without cache); sampling 2 only for the 40-value label of u2
+// (labels with <= 3 values have the same offset table for 2 and 32). Thorough = the whole postings-side product.
+func sameNameConfigs(u string, ncache int) []Config {
+	if ncache > 2 {
+		return postingsConfigs(ncache)
+	}
+	var out []Config
+	for _, s := range samplings {
+		if s == 2 && u != "u2" {
+			continue
+		}
+		for lazy := 0; lazy < 4; lazy++ {
+			for est := 1; est < 3; est++ {
+				out = append(out, Config{Sampling: s, Lazy: lazy, Est: est, Batch: 10000, Cache: 1, Gap: 1})
+			}
+		}
+	}
+	return out
+}
+
 func chunkConfigs(ncache int) []Config { // batch x gap x est x lazy{off, always} x cache
 	var out []Config
 	for _, b := range batches {
@@ -333,8 +484,10 @@ type env struct {
 	depth  int
 	ncache int // cache kinds in the postings/chunk side products: 2 = {none, in-memory}, 3 = + evicting
 
-	calls, lazyExp, refetchS, refetchC, hitP, hitE, hitS atomic.Int64
-	notedEmpty                                           sync.Once
+	refs sync.Map // universe|request -> answer of the direct TSDB read (does not depend on the store configuration)
+
+	calls, sameCalls, lazyExp, refetchS, refetchC, hitP, hitE, hitS atomic.Int64
+	notedEmpty                                                      sync.Once
 }
 
 func (e *env) requests(part string, u int) []Query {
@@ -344,6 +497,10 @@ func (e *env) requests(part string, u int) []Query {
 	case "postings":
 		sets := append(matcherSets(matcherAlphabet(name, e.full)), tripleSets(name)...)
 		for _, ms := range sets {
+			out = append(out, Query{Ms: ms, MinT: allRanges[0][0], MaxT: allRanges[0][1]})
+		}
+	case "samename":
+		for _, ms := range sameNameSets(name, e.full) {
 			out = append(out, Query{Ms: ms, MinT: allRanges[0][0], MaxT: allRanges[0][1]})
 		}
 	case "chunks":
@@ -365,6 +522,14 @@ func (e *env) requests(part string, u int) []Query {
 
 func (e *env) gen() iter.Seq[Case] {
 	return func(yield func(Case) bool) {
+		// the newest family first: on an overloaded machine the deadline cuts the tail of the older ones
+		for u := range e.unis {
+			for _, c := range sameNameConfigs(universeNames[u], e.ncache) {
+				if !yield(Case{Part: "samename", U: u, Cfg: c}) {
+					return
+				}
+			}
+		}
 		for u := range e.unis {
 			for _, c := range postingsConfigs(e.ncache) {
 				if !yield(Case{Part: "postings", U: u, Cfg: c}) {
@@ -420,6 +585,24 @@ func counterValue(reg *prometheus.Registry, name string) int64 {
 	return int64(n)
 }
 
+// repeatsAlternative: some regexp matcher of q is a plain `v1|v2|...` list in which one alternative occurs twice.
+// Only used to give violations on such requests their own (narrow) signature.
+func repeatsAlternative(q Query) bool {
+	for _, m := range q.Ms {
+		if m.T < 2 {
+			continue
+		}
+		seen := map[string]bool{}
+		for _, v := range strings.Split(strings.Trim(m.V, "()"), "|") {
+			if seen[v] {
+				return true
+			}
+			seen[v] = true
+		}
+	}
+	return false
+}
+
 // hasStoredMatcher: at least one matcher is on a label that is not an external label of some block. Requests
 // without one are rejected by the querier-facing proxy ("no matchers specified (excluding external labels)");
 // the bucket store itself answers them with nothing.
@@ -430,6 +613,20 @@ func hasStoredMatcher(q Query) bool {
 		}
 	}
 	return false
+}
+
+// reference returns the direct TSDB read for q on u; computed once per (universe, request), read-only afterwards.
+func (e *env) reference(ctx context.Context, u *universe, q Query) answer {
+	k := u.name + "|" + q.String()
+	if v, ok := e.refs.Load(k); ok {
+		return v.(answer)
+	}
+	want, err := u.reference(ctx, promMatchers(q.Ms), q.MinT, q.MaxT, nil)
+	if err != nil {
+		panic(fmt.Sprintf("HARNESS-ERROR reference read failed: %v", err))
+	}
+	v, _ := e.refs.LoadOrStore(k, want)
+	return v.(answer)
 }
 
 func (e *env) eval(c Case) {
@@ -460,10 +657,7 @@ func (e *env) eval(c Case) {
 	ncalls := int64(0)
 	// one returns false when the answer differs from the direct TSDB read
 	one := func(q Query, phase string, narrowed Case) bool {
-		want, err := u.reference(ctx, promMatchers(q.Ms), q.MinT, q.MaxT, nil)
-		if err != nil {
-			panic(fmt.Sprintf("HARNESS-ERROR reference read failed: %v", err))
-		}
+		want := e.reference(ctx, u, q)
 		res, err := g.series(ctx, &storepb.SeriesRequest{MinTime: q.MinT, MaxTime: q.MaxT, Matchers: pbMatchers(q.Ms)})
 		ncalls++
 		if err != nil {
@@ -482,6 +676,9 @@ func (e *env) eval(c Case) {
 			return false
 		}
 		if sig, desc := diffAnswers(res.ans, want); sig != "" {
+			if repeatsAlternative(q) {
+				sig += "-set-alternative-repeated"
+			}
 			if c.Cfg.Lazy != 0 {
 				sig += "-lazy-postings-on"
 			}
@@ -491,10 +688,7 @@ func (e *env) eval(c Case) {
 		return true
 	}
 	skip := func(q Query, narrowed Case) {
-		want, err := u.reference(ctx, promMatchers(q.Ms), q.MinT, q.MaxT, nil)
-		if err != nil {
-			panic(fmt.Sprintf("HARNESS-ERROR reference read failed: %v", err))
-		}
+		want := e.reference(ctx, u, q)
 		res, err := g.series(ctx, &storepb.SeriesRequest{MinTime: q.MinT, MaxTime: q.MaxT, Matchers: pbMatchers(q.Ms), SkipChunks: true})
 		ncalls++
 		if err != nil {
@@ -529,7 +723,7 @@ func (e *env) eval(c Case) {
 	}
 
 	switch c.Part {
-	case "postings", "chunks", "full":
+	case "postings", "chunks", "full", "samename":
 		qs := c.Qs
 		if qs == nil {
 			qs = e.requests(c.Part, c.U)
@@ -587,6 +781,9 @@ func (e *env) eval(c Case) {
 		panic(fmt.Sprintf("HARNESS-ERROR unknown part %q", c.Part))
 	}
 	e.calls.Add(ncalls)
+	if c.Part == "samename" {
+		e.sameCalls.Add(ncalls)
+	}
 	if ncalls > 1 {
 		r.Eval(ncalls - 1) // ForEach counts the case itself as one evaluation
 	}
@@ -601,6 +798,8 @@ func TestCheck(t *testing.T) {
 		"size-estimates{index-stats,16 bytes; thorough also package defaults} x cache{none,cold+warm; thorough also evicting}; chunk side = matcher sets x 14 time ranges (with and without chunks) x " +
 		"batch{1,2,1e4} x gap{0,512K} x estimates{default,index-stats,16 bytes} x lazy{off,always} x cache; " +
 		"histories = every sequence of <=3 queries (5 queries quick, 10 thorough) on one store sharing one index cache x cache{in-memory,evicting} x lazy x estimates x batch; " +
+		"same-name part = set matchers written out of lexicographic order / with a repeated alternative / with 17 alternatives (map-backed), alone, paired with every other " +
+		"matcher symbol on the SAME label name and with matchers on the other name, plus every set of 3 matchers on one label name over 7 symbols, x sampling x lazy x estimates, cold+warm cache; " +
 		"thorough adds the full configuration product (648 configurations) on 2 time ranges. " +
 		"non-trivial = distinct (universe, request) whose reference answer is a non-empty strict subset of the series")
 	r.Assume("float (XOR) chunks only; one segment file per block; raw resolution blocks only (downsampled blocks are C15's subject)",
@@ -634,6 +833,7 @@ func TestCheck(t *testing.T) {
 		e.eval(c)
 	})
 	r.Set("series_calls", e.calls.Load())
+	r.Set("series_calls_same_name_part", e.sameCalls.Load())
 	r.Set("lazy_expansions", e.lazyExp.Load())
 	r.Set("series_refetches", e.refetchS.Load())
 	r.Set("chunk_refetches", e.refetchC.Load())
